@@ -59,19 +59,20 @@ FLAGSETS = [O["PATH"], O["RDONLY"], O["PATH"] | O["NOFOLLOW"], O["RDONLY"] | O["
             O["RDONLY"] | O["NONBLOCK"]]
 
 
-def nonabs_magic_component(p):
-    """Does a non-final component of the sub-path name an fd/N or ns/* magic-link whose link text is not absolute?"""
+def nonabs_magic_component(p, fds=()):
+    """Does a non-final component of the sub-path name an fd/N or ns/* magic-link whose link text is not absolute?
+    The link text of fd/N is that of the *driver's* descriptor N (reported with the result), not of this process'."""
+    texts = {e[0]: unhex(e[4]) for e in fds if len(e) > 4}
     comps = p.split(b"/")       # a trailing "", "." still makes the link a non-final component
     for i in range(1, len(comps)):
         prefix = [c for c in comps[:i] if c not in (b"", b".")]
         if prefix and prefix[0] == b"self":
             prefix = prefix[1:]
-        if len(prefix) >= 2 and prefix[-2] in (b"fd", b"ns"):
-            try:
-                body = os.readlink(b"/proc/self/" + b"/".join(prefix))
-            except OSError:
-                continue
-            if not body.startswith(b"/"):
+        if len(prefix) >= 2 and prefix[-2] == b"ns":
+            return True             # ns/* link texts are "mnt:[...]" etc.
+        if len(prefix) >= 2 and prefix[-2] == b"fd" and prefix[-1].isdigit():
+            body = texts.get(int(prefix[-1]))
+            if body is not None and not body.startswith(b"/"):
                 return True
     return False
 
@@ -195,7 +196,7 @@ def run(ck):
         if not same and ca[0] == "err" and cb[0] == "err":
             # same class of refusal for magic-link components: the kernel says ELOOP, as does the emulation
             same = ca[1:] == cb[1:]
-        if not same and ca[:1] == ("err",) and cb[:1] == ("err",) and ca[2] == 40 and cb[2] == 2 and nonabs_magic_component(p):
+        if not same and ca[:1] == ("err",) and cb[:1] == ("err",) and ca[2] == 40 and cb[2] == 2 and nonabs_magic_component(p, b_.get("fds_before", []) or a.get("fds_before", [])):
             kf = [f for f in ck.known if f["id"] == "F-M-nonabs-magiclink"]
             if kf:
                 ck.known_finding(kf[0]["id"], kf[0]["what"])
